@@ -17,7 +17,8 @@ BaseAlpha(b) == b \in {"vp8la", "x-alph-vp8", "x-vp8la", "x-anim-alpha"}
 
 Irrs == {"icc", "exif", "xmp",                 \* regular metadata in the regular place
          "zero-alph",                          \* ALPH chunk of length 0 in front of the VP8 chunk
-         "opaque-alph", "opaque-alph-filtered",\* the ALPH chunk of the picture decodes to 255 everywhere (raw / horizontal filter)
+         "opaque-alph", "opaque-alph-filtered",
+         "vp8-hscale", "vp8-vscale",           \* the upscaling hint bits above the 14-bit width / height of a VP8 frame header are set\* the ALPH chunk of the picture decodes to 255 everywhere (raw / horizontal filter)
          "unk-before", "unk-after",            \* unknown chunk (odd length) before / after the image
          "exif-before", "icc-after",           \* metadata on the wrong side of the image
          "over-alpha", "over-icc", "over-exif", "over-xmp",     \* flag set, chunk absent
@@ -26,8 +27,9 @@ Irrs == {"icc", "exif", "xmp",                 \* regular metadata in the regula
          "odd-meta"}                           \* metadata blobs of odd length (pad bytes)
 
 Compatible(b, i, s) ==
-  /\ (i # "trailing" /\ i # "odd-meta" => IsExt(b))
+  /\ (i \notin {"trailing", "odd-meta", "vp8-hscale", "vp8-vscale"} => IsExt(b))
   /\ (i = "zero-alph" => b = "x-vp8")
+  /\ (i \in {"vp8-hscale", "vp8-vscale"} => b \in {"vp8", "x-vp8", "x-alph-vp8"})
   /\ (i = "opaque-alph" => b = "x-alph-vp8" /\ "opaque-alph-filtered" \notin s)
   /\ (i = "opaque-alph-filtered" => b = "x-alph-vp8" /\ "opaque-alph" \notin s)
   /\ (i = "over-alpha" => ~BaseAlpha(b) /\ "zero-alph" \notin s)
@@ -49,11 +51,12 @@ vars == <<base, irr>>
 Ch(tag, tok) == [tag |-> tag, tok |-> tok]
 Opt(c, x) == IF c THEN <<x>> ELSE <<>>
 
+Scale(s) == (IF "vp8-hscale" \in s THEN "+hs" ELSE "") \o (IF "vp8-vscale" \in s THEN "+vs" ELSE "")
 ImageChunks(b, s) ==
-  CASE b \in {"vp8", "x-vp8"} -> <<Ch("VP8 ", "vp8")>>
+  CASE b \in {"vp8", "x-vp8"} -> <<Ch("VP8 ", "vp8" \o Scale(s))>>
     [] b \in {"vp8l", "x-vp8l"} -> <<Ch("VP8L", "vp8l")>>
     [] b \in {"vp8la", "x-vp8la"} -> <<Ch("VP8L", "vp8la")>>
-    [] b = "x-alph-vp8" -> <<Ch("ALPH", IF "opaque-alph" \in s THEN "alph-opaque" ELSE IF "opaque-alph-filtered" \in s THEN "alph-opaque-f" ELSE "alph"), Ch("VP8 ", "vp8a")>>
+    [] b = "x-alph-vp8" -> <<Ch("ALPH", IF "opaque-alph" \in s THEN "alph-opaque" ELSE IF "opaque-alph-filtered" \in s THEN "alph-opaque-f" ELSE "alph"), Ch("VP8 ", "vp8a" \o Scale(s))>>
     [] b = "x-anim" -> <<Ch("ANIM", "anim"), Ch("ANMF", "f-vp8"), Ch("ANMF", "f-vp8l")>>
     [] b = "x-anim-alpha" -> <<Ch("ANIM", "anim"), Ch("ANMF", "f-vp8la"), Ch("ANMF", "f-alph-vp8"), Ch("ANMF", "f-vp8")>>
 
